@@ -424,7 +424,7 @@ func judgeC17(w *World, r *cliRun, cmds []*svcCmd, clean bool, healthy *Conn, st
 				var cmd *svcCmd
 				if len(q.Subscriptions) == 1 {
 					for _, c := range cmds {
-						if c.kind == "sub" && !seenOnWire[c.tag] && c.topic == q.Subscriptions[0].Topic && c.qos == int(q.Subscriptions[0].QOS) && order(c) > lastWireIdx {
+						if c.kind == "sub" && !seenOnWire[c.tag] && c.topic == q.Subscriptions[0].Topic && c.qos == int(q.Subscriptions[0].QOS) && order(c) > lastWireIdx && c.issued != 0 && c.issued < x.seq {
 							if c.fut != nil && c.fut.resolved && c.fut.err != nil && c.fut.at < x.seq {
 								// dequeued while the client was dead: its future was
 								// cancelled before this packet went out, so the packet
@@ -466,7 +466,7 @@ func judgeC17(w *World, r *cliRun, cmds []*svcCmd, clean bool, healthy *Conn, st
 				first = false
 			case *packet.Unsubscribe:
 				for _, c := range cmds {
-					if c.kind == "unsub" && !seenOnWire[c.tag] && len(q.Topics) == 1 && c.topic == q.Topics[0] && order(c) > lastWireIdx {
+					if c.kind == "unsub" && !seenOnWire[c.tag] && len(q.Topics) == 1 && c.topic == q.Topics[0] && order(c) > lastWireIdx && c.issued != 0 && c.issued < x.seq {
 						if first && len(desired) > 0 {
 							res.Violate("C17", "C17.resubscribe", "missing", fmt.Sprintf("connection %d: the first packet after CONNACK is the command %s, the desired set %v was not resubscribed first", cn, pktBrief(q), desired))
 						}
